@@ -155,6 +155,42 @@ func (in *ninst) runStalledTyped() {
 	in.done["typed"] = hx.IsClosed(ts.Done())
 }
 
+// runStalledFiltered: a filtered subscription nobody reads receives more accepted events than its buffer holds
+// (model buffer 2); then the root shuts down (own=false) or the subscription itself is closed (own=true).  Nobody
+// drains Events() first: Done() must close all the same.
+func (in *ninst) runStalledFiltered(own bool) {
+	in.root = hx.NewRoot(filter.Null())
+	in.root.Init(nil)
+	in.nodes = hx.Build(in.root.Pub, []hx.Spec{{Kind: "fsub", Filter: 0}}, nil, "", func(*hx.Node) kcache.Handler { return nil })
+	n := in.nodes[0]
+	if n.Err != nil {
+		vs.Fail("build | %v", n.Err)
+		return
+	}
+	<-n.Ready()
+	for i := 1; i <= 5; i++ {
+		t := kcache.EventTypeUpdate
+		if i == 1 {
+			t = kcache.EventTypeCreate
+		}
+		in.root.Publish(kcache.NewEvent(t, hx.Pod("ns", "a", fmt.Sprint(i), "l=1")))
+		vs.SleepIdle(1)
+	}
+	if own {
+		n.Close()
+	} else {
+		in.root.Stop()
+	}
+	in.refDone, in.stopDone = true, true
+	vs.SleepIdle(1)
+	in.done = map[string]bool{n.Path: hx.IsClosed(n.Done())}
+	in.evClosed = map[string]bool{}
+	in.observed = true
+	if own {
+		in.root.Stop()
+	}
+}
+
 func (in *ninst) runSelfClose() {
 	a := hx.Pod("ns", "a", "1", "l=1")
 	in.root = hx.NewRoot(filter.Null())
@@ -221,7 +257,7 @@ func (in *ninst) check(r *vs.Result) []string {
 		if left := ctl.LibBlocked(r); len(left) > 0 {
 			add("C12", "goroutine leak", "library goroutines alive after the root's shutdown raced with Refilter calls: %v", left)
 		}
-	case "leaf-close-racing-publish-and-stop", "stalled-typed-subscriber-then-stop":
+	case "leaf-close-racing-publish-and-stop", "stalled-typed-subscriber-then-stop", "stalled-filtered-subscriber-then-stop", "stalled-filtered-subscriber-closes-itself":
 		for p, d := range in.done {
 			if !d {
 				add("C11", "descendant not closed", "node %s is not done at quiescence after the root was shut down", p)
@@ -267,6 +303,8 @@ func narrow(prop, tier string) []runner.Sc {
 		{name: "monitor-closed-by-own-handler", mode: "S2", bound: d},
 		{name: "leaf-close-racing-publish-and-stop", mode: "S2", bound: d},
 		{name: "stalled-typed-subscriber-then-stop", mode: "S2", bound: d - 1, bufsiz: 2},
+		{name: "stalled-filtered-subscriber-then-stop", mode: "S2", bound: d - 1, bufsiz: 2},
+		{name: "stalled-filtered-subscriber-closes-itself", mode: "S2", bound: d - 1, bufsiz: 2},
 	} {
 		c := c
 		out = append(out, runner.Sc{
@@ -283,6 +321,10 @@ func narrow(prop, tier string) []runner.Sc {
 						run = in.runLeafClose
 					case "stalled-typed-subscriber-then-stop":
 						run = in.runStalledTyped
+					case "stalled-filtered-subscriber-then-stop":
+						run = func() { in.runStalledFiltered(false) }
+					case "stalled-filtered-subscriber-closes-itself":
+						run = func() { in.runStalledFiltered(true) }
 					}
 					return explore.Instance{Run: run, Check: in.check, Outcome: in.outcome}
 				},
